@@ -20,6 +20,12 @@ def vec(fn, spec, extra=None, doc=None):
     return dict(kind='vec', fn=fn, spec=spec, extra=extra, doc=doc)
 
 
+def each(fn, coll, elem, tx, doc=None, extra=None):
+    """Vec-returning rule that walks a repeated sequence `coll: Vec<elem>` and reports `tx` (a Seq<Seq<char>> expression
+    over `t: &elem`) for each element, in order"""
+    return dict(kind='each', fn=fn, coll=coll, elem=elem, tx=tx, doc=doc, extra=extra)
+
+
 def stub(fn, why, ret='vec'):
     return dict(kind='stub', fn=fn, why=why, ret=ret)
 
@@ -89,4 +95,53 @@ hint start
   broadcast use group_codes;
 '''),
         stub('validate_c3_currency_consistency', 'enumerate().skip(1) iterator chain', ret='opt'),
+    ])
+
+
+TYPES['101'] = dict(
+    preamble='''
+pub open spec fn zero_amount(t: &MT101Transaction) -> bool { abs_lt(t.field_32b.amount, 0.01) }
+pub open spec fn has_equi(t: &MT101Transaction) -> bool {
+    t.field_23e.is_some() && exists|i: int| 0 <= i < t.field_23e.unwrap()@.len() && (#[trigger] t.field_23e.unwrap()@[i]).instruction_code@ == "EQUI"@
+}
+pub open spec fn any_tx(m: &MT101, p: spec_fn(MT101Transaction) -> bool) -> bool { exists|i: int| 0 <= i < m.transactions@.len() && p(#[trigger] m.transactions@[i]) }
+pub open spec fn any_oc(m: &MT101) -> bool { exists|i: int| 0 <= i < m.transactions@.len() && (#[trigger] m.transactions@[i]).ordering_customer_tx.is_some() }
+pub open spec fn all_oc(m: &MT101) -> bool { m.transactions@.len() > 0 && forall|i: int| 0 <= i < m.transactions@.len() ==> (#[trigger] m.transactions@[i]).ordering_customer_tx.is_some() }
+pub open spec fn any_ip(m: &MT101) -> bool { exists|i: int| 0 <= i < m.transactions@.len() && (#[trigger] m.transactions@[i]).instructing_party_tx.is_some() }
+pub open spec fn any_52(m: &MT101) -> bool { exists|i: int| 0 <= i < m.transactions@.len() && (#[trigger] m.transactions@[i]).field_52.is_some() }
+''',
+    helpers=[
+        ('has_ordering_customer_in_seq_a', 'r == self.ordering_customer.is_some()'),
+        ('has_ordering_customer_in_all_seq_b', 'r == all_oc(self)'),
+        ('has_ordering_customer_in_any_seq_b', 'r == any_oc(self)'),
+        ('has_instructing_party_in_seq_a', 'r == self.instructing_party.is_some()'),
+        ('has_instructing_party_in_any_seq_b', 'r == any_ip(self)'),
+        ('has_account_servicing_in_seq_a', 'r == self.field_52a.is_some()'),
+        ('has_account_servicing_in_any_seq_b', 'r == any_52(self)'),
+    ],
+    rules=[
+        each('validate_c1_fx_deal_reference', 'transactions', 'MT101Transaction',
+             'one_if(t.field_36.is_some() && t.field_21f.is_none(), "D54"@)',
+             doc='C1 (D54): per transaction, field 36 present => field 21F present'),
+        each('validate_c2_amount_exchange', 'transactions', 'MT101Transaction',
+             'one_if(if t.field_33b.is_some() { if zero_amount(t) { t.field_36.is_some() } else { t.field_36.is_none() } } else { t.field_36.is_some() }, "D60"@)',
+             doc='C2 (D60): 33B present & amount != 0 => 36 mandatory; 33B present & amount = 0 => 36 not allowed; 33B absent => 36 not allowed'),
+        opt('validate_c3_ordering_customer', 'D61',
+            '(m.ordering_customer.is_some() && any_oc(m)) || (m.ordering_customer.is_none() && !all_oc(m))',
+            doc='C3 (D61): field 50a (F/G/H) in sequence A or in every sequence B, never in both'),
+        opt('validate_c4_instructing_party', 'D62', 'm.instructing_party.is_some() && any_ip(m)',
+            doc='C4 (D62): field 50a (C/L) in sequence A or in sequence B occurrences, not both'),
+        each('validate_c5_currency_codes', 'transactions', 'MT101Transaction',
+             'one_if(t.field_33b.is_some() && t.field_33b.unwrap().currency@ == t.field_32b.currency@, "D68"@)',
+             doc='C5 (D68): 33B present => its currency differs from 32B'),
+        opt('validate_c6_account_servicing', 'D64', 'm.field_52a.is_some() && any_52(m)',
+            doc='C6 (D64): field 52a in sequence A or in sequence B, not both'),
+        each('validate_c7_intermediary', 'transactions', 'MT101Transaction',
+             'one_if(t.field_56.is_some() && t.field_57.is_none(), "D65"@)',
+             doc='C7 (D65): 56a present => 57a present'),
+        stub('validate_c8_currency_consistency', 'enumerate().skip(1) iterator chain', ret='opt'),
+        each('validate_c9_zero_amount', 'transactions', 'MT101Transaction',
+             'if zero_amount(t) { if has_equi(t) { one_if(t.field_33b.is_none(), "E54"@) } else { one_if(t.field_33b.is_some(), "E54"@) + one_if(t.field_21f.is_some(), "E54"@) } } else { seq![] }',
+             doc='C9 (E54): amount zero & 23E EQUI => 33B mandatory; amount zero & no EQUI => 33B and 21F not allowed'),
+        stub('validate_field_23e', 'HashSet / nested code-table loops'),
     ])
